@@ -203,6 +203,27 @@ theorem pager_draw_rows (s : St) (w h : Nat) (r : Nat) (hr : r < h) :
     · rfl
     · omega
 
+/-- **Every line can be presented** — for every pager state, every line `i` of the laid-out text
+    and every window of `h ≥ 1` rows: scrolling to `Offset = i` and drawing (at the width the lines
+    were laid out for) shows line `i` in one of the `h` rows — the clamping never makes a line
+    unreachable, the last one included. -/
+theorem pager_line_reachable (s : St) (w h : Nat) (hh : 1 ≤ h) (hw : (w : Int) = s.width)
+    (i : Nat) (l : Line) (hi : s.lines[i]? = some l) :
+    ∃ r, r < h ∧ (draw Gen.ListFacts.layoutFlushesLast { s with offset := (i : Int) } w h).2[r]? = some (drawRow w l) := by
+  have hil : i < s.lines.length := Lemmas.DynList.getElem?_lt hi
+  obtain ⟨off, hoff⟩ : ∃ o, o = clampOffset s.lines.length (i : Int) h := ⟨_, rfl⟩
+  have hb : 0 ≤ off ∧ off ≤ (i : Int) ∧ (i : Int) < off + h := by
+    rw [hoff]; unfold clampOffset; simp only []
+    split <;> split <;> omega
+  have hst : (draw Gen.ListFacts.layoutFlushesLast { s with offset := (i : Int) } w h).1 = { s with offset := off } := by
+    simp only [draw, hw, ne_eq, not_true_eq_false, if_false]
+    rw [hoff]
+  refine ⟨i - off.toNat, by omega, ?_⟩
+  have hrow := pager_draw_rows { s with offset := (i : Int) } w h (i - off.toNat) (by omega)
+  rw [hrow, hst]
+  have : off.toNat + (i - off.toNat) = i := by omega
+  simp only [this, hi]
+
 /-- **No character is lost on the drawn row** — a laid-out line (it respects the width, see
     `pager_complete`) whose characters are at least one column wide is drawn, in a window of width
     `w ≥ 1`, with EVERY character in its own cell: character `k` at the column that is the total width
@@ -430,21 +451,21 @@ theorem dyn_next_prev_visible_any_state (cfg : Cfg) (hs : List Nat) (hlen : hs.l
     ensureScroll_draw_visible cfg hs hlen s c W H (hs[c]'hc) hW hH hH1 ht hget (hpos _ (by rw [e2]; exact hget))
   exact ⟨s', cs, by rw [e1]; exact hd, ch, hm, by rw [e2]; exact hi, hv⟩
 
-/-- **NextItem / PrevItem show the selection — all histories, all gaps ≥ 0, items replaced at will.** -/
+/-- **NextItem / PrevItem show the selection — all histories, all gaps ≥ 0, items replaced at will**
+    (the newly selected item has height ≥ 1; the other items may have any height, 0 included). -/
 theorem dyn_next_prev_visible (cfg : Cfg) (hgap : 0 ≤ cfg.gap) (hs0 : List Nat) (hlen0 : hs0.length < 2 ^ 63)
     (ops : List HOp) (ho : ∀ op ∈ ops, HOpOk op) (hs : List Nat) (s : St)
     (hrun : runH genFacts cfg hs0 init ops = .ok (hs, s))
     (W H : Nat) (hW : W ≠ 65535) (hH : H ≠ 65535) (hH1 : 1 ≤ H)
     (s1 : St) (hmove : (nextItem hs s = (s1, true)) ∨ (prevItem hs s = (s1, true)))
-    (hpos : ∀ h ∈ hs, 1 ≤ h) :
+    (hpos : ∀ h, hs[s1.cursor]? = some h → 1 ≤ h) :
     ∃ s' cs, draw genFacts cfg hs s1 W H = .ok (s', cs) ∧
       ∃ ch ∈ cs, ch.idx = s1.cursor ∧ Visible H ch := by
   have hrun' := hrun
   rw [dyn_repairs_present] at hrun'
   obtain ⟨hs', s0, he, hi, hl⟩ := runH_inv cfg hgap ops hs0 init hlen0 init_inv ho
   rw [hrun'] at he; cases he
-  exact dyn_next_prev_visible_any_state cfg hs hl s W H hW hH hH1 hi.top_ok hi.cur_ok s1 hmove
-    (fun h hh => hpos h (List.mem_of_getElem? hh))
+  exact dyn_next_prev_visible_any_state cfg hs hl s W H hW hH hH1 hi.top_ok hi.cur_ok s1 hmove hpos
 
 /-- Non-vacuity of the history theorems: a concrete history with gap 1 in which the items are
     replaced by fewer than the top index. -/
